@@ -12,6 +12,66 @@ use std::collections::BTreeMap;
 
 const PID: &str = "C14";
 
+/// Buffers of 2^31 and 2^32 bits (and a little more) handed to `messages::parse`: a message of a
+/// type whose decoding reads a bounded prefix, followed by zeros. The reference model gives the
+/// same field list for such a type at 2^17 bits and at 2^17 + 64 bits (checked here); that list is
+/// then the expectation for the giant buffer. The buffer is zero-allocated and only its first page
+/// is touched, so the probe is cheap; types that read to the end of the buffer are left out.
+pub fn giant_buffer_probe(ctx: &Ctx, rep: &mut Report, pid: &str, mask: u32, r: &mut crate::rng::Rng) {
+    let mut item = 1000u64;
+    for &t in SUPPORTED.iter() {
+        if matches!(t, 6 | 8 | 12 | 14 | 17 | 25 | 26) {
+            continue;
+        }
+        for &bytes in &[(1usize << 28) + 1, (1 << 29), (1 << 29) + 1, (1 << 29) + 38, (1 << 29) + 53] {
+            if !ctx.mine(item) {
+                item += 1;
+                continue;
+            }
+            item += 1;
+            let mut prefix = Bits::random(1100, r);
+            prefix.put(0, 6, t as u64);
+            let stable = |extra: usize| {
+                let mut v = prefix.clone();
+                v.extend_zeros((1 << 17) + extra);
+                crate::decode_ref::decode_ref(&v)
+            };
+            let (e1, e2) = (stable(0), stable(64));
+            let exp = match (&e1, &e2) {
+                (RefOut::Msg(a), RefOut::Msg(b)) if a.f.len() == b.f.len() && a.variant == b.variant => a.clone(),
+                _ => {
+                    rep.count("giant-buffer-type-not-length-stable");
+                    continue;
+                }
+            };
+            let mut buf = vec![0u8; bytes];
+            let pb = prefix.to_bytes();
+            buf[..pb.len()].copy_from_slice(&pb);
+            rep.eval();
+            rep.class(format!("t{}|giant-buffer|2^{}", t, if bytes >= 1 << 29 { 32 } else { 31 }));
+            rep.count("giant-buffers");
+            let what = format!("type {} message followed by zeros, {} bytes in all", t, bytes);
+            match crate::mon::guard(|| ais::messages::parse(&buf).ok().map(|m| crate::observe::message(&m))) {
+                Err(pi) => rep.violation(pid, format!("panic@{}", pi.loc), format!("{}: panic '{}'", what, pi.msg), || crate::mon::replay_message(&pb, "giant buffer (prefix shown; zeros follow)")),
+                Ok(None) => {
+                    if exp.must_ok || true {
+                        // far beyond any legal length: an error is allowed
+                        rep.count("giant-buffer-rejected");
+                    }
+                }
+                Ok(Some(obs)) => {
+                    for m in crate::val::compare(&exp, &obs) {
+                        if m.prop <= 1 || (mask >> m.prop) & 1 == 1 {
+                            rep.violation(pid, format!("t{}:{}:giant-buffer", t, m.key), format!("{}: field {} expected {} observed {}", what, m.key, m.expected, m.observed), || crate::mon::replay_message(&pb, "giant buffer (prefix shown; zeros follow)"));
+                            break;
+                        }
+                    }
+                }
+            }
+        }
+    }
+}
+
 fn max_bits(t: u8) -> usize {
     match t {
         5 => 424,
@@ -145,8 +205,24 @@ pub fn run(ctx: &Ctx, rep: &mut Report) {
                 let v = gen::run_message_mask(rep, PID, mask, &bits, Via::Raw, "wrap-length");
                 rep.class(format!("t{}|wrap-length|{}", t, v.outcome));
             }
+            // ... and buffers holding 2^8 or 2^16 (+ a few) elements of the element widths that
+            // occur in the variable-length messages (6-bit characters, bytes, 30- and 32-bit list
+            // entries) behind a 38/40-bit header: an element *count* kept in 8 or 16 bits wraps here
+            for w in [6usize, 8, 30, 32] {
+                for k in [8u32, 16] {
+                    let centre = (40 + (1usize << k) * w) / 8;
+                    let span = if ctx.thorough() { 40 } else { 24 };
+                    for bytes in (centre - 6)..(centre + span) {
+                        let mut bits = Bits::random(bytes * 8, &mut r);
+                        bits.put(0, 6, t as u64);
+                        let v = gen::run_message_mask(rep, PID, mask, &bits, Via::Raw, "wrap-count");
+                        rep.class(format!("t{}|wrap-count|w{}|2^{}|{}", t, w, k, v.outcome));
+                    }
+                }
+            }
         }
     }
+    giant_buffer_probe(ctx, rep, PID, mask, &mut r);
     let mut th = J::obj();
     for (k, v) in thresholds {
         th.set(&k, J::i(v));
